@@ -103,6 +103,15 @@ func (r *run) gateShapes() {
 			if accepted {
 				pairs = append(pairs, Pair{"level", strconv.Itoa(info.UserLevel), strconv.Itoa(s.lvl)})
 			}
+			gc := &Case{Stream: "usage-gate", Op: "gatecb", Fam: "gate", Note: s.note + "; " + p.note, Key: k, MaxTTL: z(maxttl), Now: z(p.now),
+				Tok: hx16([]byte(p.tok)), Macs: macsForHex(k, []byte(p.tok)), CB: &CBShape{Lvl: strconv.Itoa(s.lvl), Err: s.err != nil}}
+			gc.Obs.Crash = crash
+			if err != nil {
+				gc.Obs.Err = 1
+			} else if info != nil {
+				gc.Obs.Ok, gc.Obs.Out, gc.Obs.Left, gc.Obs.Refresh = info.Valid, hx16([]byte(info.User)), z(int64(info.UserLevel)), info.NeedRefresh
+			}
+			r.emit(gc)
 			r.use("gate", s.note+"; "+p.note, Facts{Genuine: p.genuine, InTime: p.intime, Consent: s.err == nil && s.lvl >= 0,
 				Payload: hx16([]byte(user))}, accepted, out, crash, pairs...)
 		}
@@ -130,8 +139,14 @@ func (r *run) gateShapes() {
 		{"lower-case scheme, no cookie", "bearer " + tok, "", base + sec, false, true, true, false},
 		{"basic scheme carrying the token, no cookie", "Basic " + tok, "", base + sec, false, true, true, false},
 		{"nothing presented", "", "", base + sec, false, true, true, false},
+		{"cookie: genuine, but the check callback fails", "", tok, base + sec, true, true, true, false},
 	} {
 		clk.ns, seen = q.now, nil
+		cur = shapes[0]
+		failing := strings.Contains(q.note, "callback fails")
+		if failing {
+			cur = shapes[3]
+		}
 		hr := httptest.NewRequest("GET", "http://example.com/x", nil)
 		if q.auth != "" {
 			hr.Header.Set("Authorization", q.auth)
@@ -146,10 +161,13 @@ func (r *run) gateShapes() {
 		crash := guard(func() { valid, err = g.CheckAndSetup(c) })
 		accepted := crash == "" && err == nil && (valid || c.User != "")
 		wantUser := ""
-		if q.genuine && q.intime {
+		if q.genuine && q.intime && !failing {
 			wantUser = user
 		}
 		pairs := []Pair{{"context-user", c.User, wantUser}}
+		if failing {
+			pairs = append(pairs, Pair{"callback-error-returned", fmt.Sprint(err != nil), "true"})
+		}
 		// cookies written back
 		var written []string
 		for _, ck := range rec.Result().Cookies() {
@@ -170,13 +188,14 @@ func (r *run) gateShapes() {
 		}
 		wantWritten := ""
 		switch {
+		case failing:
 		case q.viaCookie && !(q.genuine && q.intime):
 			wantWritten = "cleared"
 		case q.refresh:
 			wantWritten = "session(user=" + user + " valid=true alive-after-max-lifetime=false)"
 		}
 		pairs = append(pairs, Pair{"cookies-written", strings.Join(written, ";"), wantWritten})
-		r.use("gate-http", "CheckAndSetup; "+q.note, Facts{Genuine: q.genuine, InTime: q.intime, Consent: true, Payload: hx16([]byte(user))},
+		r.use("gate-http", "CheckAndSetup; "+q.note, Facts{Genuine: q.genuine, InTime: q.intime, Consent: !failing, Payload: hx16([]byte(user))},
 			accepted, []byte(c.User), crash, pairs...)
 	}
 }
